@@ -59,8 +59,21 @@ class TakeLast(Blockwise):
         if skipna:
             if a.ndim == 1 and (a.empty or a.isna().all()):
                 return None
+            if a.ndim == 2 and a.empty:
+                # an empty partition carries nothing over
+                return None
             a = a.ffill()
         return a.tail(n=1).squeeze()
+
+
+def _aggregate_carry(aggregate, x, y):
+    """Combine two carried values; ``None`` stands for "nothing carried"
+    (empty or all-null partitions)"""
+    if x is None:
+        return y
+    if y is None:
+        return x
+    return aggregate(x, y)
 
 
 class CumulativeFinalize(Expr):
@@ -85,12 +98,13 @@ class CumulativeFinalize(Expr):
             else:
                 # aggregate with previous cumulation results
                 dsk[(intermediate_name, i)] = (
-                    methods._cum_aggregate_apply,
+                    _aggregate_carry,
                     self.aggregator,
                     (intermediate_name, i - 1),
                     (previous_partitions._name, i - 1),
                 )
             dsk[(self._name, i)] = (
+                _aggregate_carry,
                 self.aggregator,
                 (self.frame._name, i),
                 (intermediate_name, i),
